@@ -185,4 +185,27 @@ theorem geometry_layer_translated :
    GeomTie.gen_Circuit_placedWidth_eq_model, GeomTie.gen_Circuit_placedHeight_eq_model,
    GeomTie.gen_Circuit_placement_eq_model⟩
 
+/-- The two whole-circuit row queries are translated from the source, loops included
+(`Gen.Geom.Circuit_computePlacementArea`, `Gen.Geom.Circuit_rowHeight`: `List.foldl`s of named step functions
+generated from the clang AST of coloquinte.cpp):
+* `Circuit::rowHeight()` equals the model's `Circuit.rowHeight` for every circuit (`none` = throws: no rows, or
+  rows of different heights);
+* `Circuit::computePlacementArea()` starts its min/max from `std::numeric_limits<int>::max()/min()`, so it equals
+  `Circuit.placementArea` when the row coordinates are C++ `int`s (`GeomTie.RowsInInt`, decidable; only the first
+  row's matter, and over unbounded `Int` a coordinate beyond INT_MAX would be clipped by the sentinel);
+* for a circuit without rows both sides are `Rectangle(0, 0, 0, 0)` resp. `none`, with no hypothesis. -/
+theorem geometry_loops_translated :
+    Gen.Geom.Circuit_rowHeight = Circuit.rowHeight ∧
+    (∀ c : Circuit, GeomTie.RowsInInt c → Gen.Geom.Circuit_computePlacementArea c = c.placementArea) ∧
+    (∀ c : Circuit, c.rows = [] →
+      Gen.Geom.Circuit_computePlacementArea c = ⟨0, 0, 0, 0⟩ ∧ c.placementArea = ⟨0, 0, 0, 0⟩ ∧
+      Gen.Geom.Circuit_rowHeight c = none ∧ c.rowHeight = none) :=
+  ⟨GeomTie.gen_Circuit_rowHeight_eq_model, GeomTie.gen_Circuit_computePlacementArea_eq_model, GeomTie.gen_no_rows⟩
+
+-- non-vacuity of `RowsInInt`, and what the generated loops compute
+example :
+    let c : Circuit := ⟨[], [], [⟨⟨0, 10, 0, 4⟩, .N⟩, ⟨⟨-5, 8, 4, 8⟩, .FS⟩]⟩
+    GeomTie.RowsInInt c ∧ Gen.Geom.Circuit_computePlacementArea c = ⟨-5, 10, 0, 8⟩ ∧
+      Gen.Geom.Circuit_rowHeight c = some 4 := by decide
+
 end ColoVerif.C15
